@@ -159,7 +159,7 @@ def run_mutants(modname, units, mutants, jobs=None):
     summary, broken = [], []
     for mi, m in enumerate(mutants):
         res = [r for r in res_all if r["unit"].startswith(f"{mi}::")]
-        failed = sorted({o["name"] for r in res for o in r["obls"] if o["status"] == "failed"})
+        failed = sorted({o["name"] for r in res for o in r["obls"] if o["status"] in ("failed", "failed-weak")})
         unknown = sorted({o["name"] for r in res for o in r["obls"] if o["status"] == "unknown"})
         errs = [f"{r['unit']}: {r.get('error')}" for r in res if r["status"] != "ok"]
         anchor_missing = any("mutation anchor not found" in (e or "") for e in errs)
